@@ -1,6 +1,7 @@
 import WhVerif.Util.Proto
 import WhVerif.Model.C04Json
 import WhVerif.Model.C09
+import WhVerif.Model.C09File
 namespace WhVerif.Driver.C09
 open Lean WhVerif.Proto WhVerif.C04 WhVerif.C04.Json WhVerif.C09
 
@@ -23,6 +24,7 @@ def ofErr : Err → Json
   | .hpFormat => Json.mkObj [("error", Json.str "hpFormat")]
   | .mixed => Json.mkObj [("error", Json.str "mixed")]
   | .notSorted => Json.mkObj [("error", Json.str "notSorted")]
+  | .ploidy => Json.mkObj [("error", Json.str "ploidy")]
 
 def varPhase? (j : Json) : Option VarPhase := do
   some ⟨← getNat? j "pos", ← getBool? j "wanted", ← getNatList? j "gcode", ← phase? (← getObj? j "phase")⟩
@@ -30,6 +32,46 @@ def varPhase? (j : Json) : Option VarPhase := do
 def ofRow (r : Row) : Json :=
   Json.mkObj [("pos", ofNat r.pos), ("ref", Json.str r.ref), ("alt", Json.str r.alt),
     ("calls", ofList (fun gp => Json.arr #[ofNatList gp.1, ofPhase gp.2]) r.calls)]
+
+
+def optNat? : Json → Option (Option Nat)
+  | Json.null => some none
+  | j => (asNat? j).map some
+
+def optInt? : Json → Option (Option Int)
+  | Json.null => some none
+  | j => (asInt? j).map some
+
+def group? (j : Json) : Option (String × List Record) := do
+  some (← getStr? j "chrom", ← (← getList? j "records").mapM record?)
+
+def rowCall? (j : Json) : Option (List Nat × Option Phase) := do
+  match ← asArr? j with
+  | [g, p] => some (← (← asArr? g).mapM asNat?, ← phase? p)
+  | _ => none
+
+def row? (j : Json) : Option Row := do
+  some ⟨← getNat? j "pos", ← getStr? j "ref", ← getStr? j "alt", ← (← getList? j "calls").mapM rowCall?⟩
+
+def ptable? (j : Json) : Option PTable := do
+  some ⟨← getStr? j "chrom", ← strList? (← getObj? j "samples"), ← (← getList? j "rows").mapM row?,
+        ← (← getList? j "quals").mapM fun q => do (← asArr? q).mapM optInt?⟩
+
+def vkey? (j : Json) : Option VKey := do
+  match ← asArr? j with
+  | [p, r, a] => some (← asNat? p, ← asStr? r, ← asStr? a)
+  | _ => none
+
+def ofPseudoRead (r : PseudoRead) : Json :=
+  Json.mkObj [("name", Json.str r.name), ("source_id", ofNat r.sourceId), ("sample_id", ofNat r.sampleId),
+    ("variants", ofList (fun v => Json.arr #[ofNat v.1, ofOptNat v.2.1, ofInt v.2.2]) r.variants)]
+
+def ofOut (o : Out) : Json :=
+  Json.mkObj [("record", ofRecord o.record), ("changes", ofList ofChange o.changes), ("err", Json.bool o.err)]
+
+def wgroup? (base : Cfg) (j : Json) : Option (String × Cfg × List Record) := do
+  some (← getStr? j "chrom", { base with targets := ← (← getList? j "targets").mapM target? },
+        ← (← getList? j "records").mapM record?)
 
 /-- ops of property C09 are named `c09.<name>`; return `none` for ops that are not ours -/
 def handle (op : String) (j : Json) : Option Json :=
@@ -53,6 +95,37 @@ def handle (op : String) (j : Json) : Option Json :=
       some (ofList (fun x => Json.arr #[match x.1 with | some b => ofInt b | none => Json.null, ofNat x.2.1,
                                          ofList (fun pa => Json.arr #[ofNat pa.1, ofOptNat pa.2]) x.2.2])
               (blocksAsReads 2 rows))
+    | none => some badInput
+  else if op == "c09.readfile" then
+    match getBool? j "onlySnvs", (getObj? j "ploidy").bind optNat?, (getList? j "groups").bind (·.mapM group?) with
+    | some os, some pl, some gs =>
+      match readFile os pl gs with
+      | .ok (pl', tables) =>
+        some (Json.mkObj [("ploidy", ofOptNat pl'),
+          ("tables", ofList (fun t => Json.mkObj [("chrom", Json.str t.1), ("rows", ofList ofRow t.2)]) tables)])
+      | .error e => some (ofErr e)
+    | _, _, _ => some badInput
+  else if op == "c09.phaseinput" then
+    match (getList? j "files").bind (·.mapM fun f => do (← asArr? f).mapM ptable?), getNat? j "nPaths",
+          getStr? j "chrom", getStr? j "sample", getNat? j "sampleId", (getList? j "inputVariants").bind (·.mapM vkey?) with
+    | some files, some np, some chrom, some sample, some sid, some iv =>
+      let (reads, ids) := phaseInputReads files np chrom sample sid iv
+      some (Json.mkObj [("reads", ofList ofPseudoRead reads), ("source_ids", ofNatList ids)])
+    | _, _, _, _, _, _ => some badInput
+  else if op == "c09.writex" then
+    match getBool? j "rm", (getObj? j "cfg").bind cfg?, (getList? j "records").bind (·.mapM record?) with
+    | some rm, some cfg, some rs =>
+      -- "f65": the working tree has fixes/F65.patch (keep mode: a call phased anew loses its old phase information first)
+      if !rm && (getBool? j "f65").getD false then some (ofList ofOut (writeChromXF cfg none rs))
+      else some (ofList ofOut (writeChromX rm cfg none rs))
+    | _, _, _ => some badInput
+  else if op == "c09.writefile" then
+    match (getObj? j "cfg").bind cfg? with
+    | some base =>
+      match (getList? j "groups").bind (·.mapM (wgroup? base)) with
+      | some gs =>
+        some (ofList (fun g => Json.mkObj [("chrom", Json.str g.1), ("records", ofList ofRecord g.2)]) (writeFile gs))
+      | none => some badInput
     | none => some badInput
   else none
 end WhVerif.Driver.C09
